@@ -209,7 +209,54 @@ def _as_list_with_output_only_field(ctx):
                               f"{label}, {recipe_label}: {x!r} -> {d!r:.80} -> {back!r:.120}", {"case": label, "layout": recipe_label})
 
 
+def _configured_temporal_providers(ctx):
+    """date_by_timestamp / datetime_by_timestamp / datetime_by_format in the recipe, with the process in several time zones (POSIX TZ strings,
+    no tz database needed): the round trip must not depend on where the process runs (report of a round-8 agent: date_by_timestamp dumps
+    midnight UTC and loaded with the LOCAL zone - west of Greenwich every date came back as the day before)."""
+    import datetime as dtm  # noqa: PLC0415
+    import json  # noqa: PLC0415
+    import os  # noqa: PLC0415
+    import time  # noqa: PLC0415
+    import typing  # noqa: PLC0415
+
+    from adaptix import Retort, date_by_timestamp, datetime_by_format, datetime_by_timestamp  # noqa: PLC0415
+
+    from ..adx import MODES  # noqa: PLC0415
+
+    utc = dtm.timezone.utc
+    dates = [dtm.date(2020, 1, 1), dtm.date(1970, 1, 1), dtm.date(2024, 2, 29), dtm.date(1999, 12, 31), dtm.date(2038, 1, 19), dtm.date(1971, 6, 15)]
+    aware = [dtm.datetime(2020, 1, 1, tzinfo=utc), dtm.datetime(2011, 11, 4, 0, 5, 23, tzinfo=utc), dtm.datetime(1970, 1, 1, 0, 0, 1, tzinfo=utc), dtm.datetime(2024, 2, 29, 23, 59, 59, tzinfo=utc)]
+    plus3 = dtm.timezone(dtm.timedelta(hours=3))
+    plans = [("date_by_timestamp", dtm.date, [date_by_timestamp()], dates), ("datetime_by_timestamp", dtm.datetime, [datetime_by_timestamp()], aware),
+             ("datetime_by_timestamp(tz=+3)", dtm.datetime, [datetime_by_timestamp(tz=plus3)], [d.astimezone(plus3) for d in aware]),
+             ("datetime_by_format", dtm.datetime, [datetime_by_format(fmt="%Y-%m-%d %H:%M:%S")], [d.replace(tzinfo=None) for d in aware]),
+             ("date_by_timestamp/list", typing.List[dtm.date], [date_by_timestamp()], [dates]), ("date_by_timestamp/dict", typing.Dict[str, dtm.date], [date_by_timestamp()], [{"d": dates[0], "e": dates[3]}])]
+    old = os.environ.get("TZ")
+    try:
+        for tz in ("UTC", "VRF+5", "VRF-9", "VRF+11:30", "VRF-13"):
+            os.environ["TZ"] = tz
+            time.tzset()
+            for name, tp, recipe, values in plans:
+                for dt, sc in MODES[:2] + MODES[-1:]:
+                    r = Retort(recipe=recipe, debug_trail=dt, strict_coercion=sc)
+                    for x in values:
+                        d = attempt(r.dump, x, tp)
+                        back = attempt(r.load, json.loads(json.dumps(d.value)), tp) if d.kind == "ok" else d
+                        ctx.evaluated(("temporal-provider", name, tz, repr(x), dt.name, sc), nontrivial=tz != "UTC")
+                        ctx.count("leg_any")
+                        ctx.count("temporal_round_trips")
+                        if back.kind != "ok" or back.value != x or type(back.value) is not type(x):
+                            ctx.violation(f"value-changed:{name.split('/')[0].split('(')[0]}:process-time-zone", f"{name} with TZ={tz}: {x!r} -> {d!r:.80} -> {back!r:.120}", {"provider": name, "TZ": tz, "value": repr(x)})
+    finally:
+        if old is None:
+            os.environ.pop("TZ", None)
+        else:
+            os.environ["TZ"] = old
+        time.tzset()
+
+
 DIRECTED = {
+    "configured-temporal-providers-in-several-time-zones": _configured_temporal_providers,
     "as-list-with-output-only-field": _as_list_with_output_only_field,
     "omit-default-round-trip": _omit_default_round_trip,
     "all-scalars": _all_scalars,
